@@ -120,7 +120,9 @@ async fn replay(ip: &Inproc, dir: &std::path::Path, events: &[String]) -> Value 
             let k = launched.len() as u32 + 1;
             let cmd = match kind {
                 "s" => format!("vgate {k} &"),
-                "c" => format!("{{ vgate {k}; vmark c{k}; }} &"),
+                // the append redirection is set up at launch, the line is written after the gate: lines of
+                // jobs that finish in any order must all end up in the shared file
+                "c" => format!("{{ vgate {k}; vmark c{k}; echo j{k}; }} >>log &"),
                 "p" => format!("vgate {k} | vcat >/dev/null &"),
                 // a job that ends in an interpreter error (not a status) after its gate
                 "e" => format!("{{ vgate {k}; echo $((1/0)); }} 2>/dev/null &"),
@@ -217,6 +219,18 @@ async fn replay(ip: &Inproc, dir: &std::path::Path, events: &[String]) -> Value 
                     }
                 }
             }
+            // file effects: the line of every awaited compound job is in the shared file, once, when wait returns
+            if !infeasible {
+                let log = std::fs::read_to_string(dir.join("log")).unwrap_or_default();
+                for k in &must_finish {
+                    if launched_kinds[(*k - 1) as usize] == "c" {
+                        let c = log.lines().filter(|l| *l == format!("j{k}")).count();
+                        if c != 1 {
+                            violations.push(json!({"oracle": "file-effects-visible-after-wait", "detail": format!("line j{k} occurs {c} times in the shared file after `{}`: {:?}", e, log)}));
+                        }
+                    }
+                }
+            }
             settle().await;
         }
         // invariants in every state
@@ -252,6 +266,25 @@ async fn replay(ip: &Inproc, dir: &std::path::Path, events: &[String]) -> Value 
         }
     }
     settle().await;
+    // every compound job was released and finished: each one's line is in the shared file exactly once
+    if !infeasible {
+        let want: Vec<String> = launched.iter().filter(|k| launched_kinds[(**k - 1) as usize] == "c").map(|k| format!("j{k}")).collect();
+        let mut log = String::new();
+        for _ in 0..600 {
+            log = std::fs::read_to_string(dir.join("log")).unwrap_or_default();
+            if log.lines().count() >= want.len() {
+                break;
+            }
+            tokio::time::sleep(std::time::Duration::from_millis(5)).await;
+        }
+        let mut got: Vec<String> = log.lines().map(String::from).collect();
+        got.sort();
+        let mut w = want.clone();
+        w.sort();
+        if got != w {
+            violations.push(json!({"oracle": "file-effects-none-lost", "detail": format!("shared file holds {:?}, expected the lines {:?}", log, want)}));
+        }
+    }
     let t = table(&sh);
     let m = marks();
     let mset: BTreeSet<&String> = m.iter().filter(|x| x.starts_with('m') || x.starts_with('c')).collect();
